@@ -570,6 +570,145 @@ Proof.
     + exact (IH ts tail ws' Hr Er).
 Qed.
 
+(** ** white space in the format may take the space padding of the next field with it
+    ([unambiguous_ws_b] = [unambiguous_b] after [absorb]): the re-attributed pairs are still safe *)
+Lemma split_ws_app_ws pre t : ascii_ws pre -> split_ws (pre ++ t) = (pre ++ fst (split_ws t), snd (split_ws t)).
+Proof.
+  intros H. induction H as [|c r [Hc Hw] _ IH]; cbn [app]; [destruct (split_ws t); reflexivity|].
+  cbn [split_ws]. assert (E : ws_byte c = true) by (unfold ws_byte; rewrite Hw; lia). rewrite E, IH. reflexivity.
+Qed.
+Lemma reads_numeric_strip spec pre t rest : ascii_ws pre -> reads_numeric spec (pre ++ t) rest = reads_numeric spec t rest.
+Proof.
+  intros H. unfold reads_numeric. rewrite (split_ws_app_ws pre t H). destruct (split_ws t) as [a b]. reflexivity.
+Qed.
+
+(* whatever the reader recognises in the text of the pair is a field of the value *)
+Definition safe_pair (sv : sval) (on : option Z) (x : Item * bytes) : Prop :=
+  forall rest w, reads_b (fst x) (snd x) rest = Some w -> w_ok (gview sv on) w.
+Lemma safe_list sv on : forall l tail ws, Forall (safe_pair sv on) l -> unambiguous_b l tail = Some ws ->
+  Forall (w_ok (gview sv on)) ws.
+Proof.
+  induction l as [|[it t] r IH]; intros tail ws HS HU; inversion HS as [|? ? Hx Hr]; subst.
+  - cbn in HU. apply Some_inj in HU. subst ws. constructor.
+  - cbn [unambiguous_b] in HU. destruct (reads_b it t (text_of r ++ tail)) as [w|] eqn:Ew; [|discriminate HU].
+    destruct (unambiguous_b r tail) as [ws'|] eqn:Er; [|discriminate HU]. apply Some_inj in HU. subst ws.
+    constructor; [exact (Hx _ w Ew)|exact (IH tail ws' Hr Er)].
+Qed.
+
+(* a pair of the absorbed list: a white-space item, or an item with its documented rendering minus
+   leading ASCII white space *)
+Definition doc_pair (sv : sval) (on : option Z) (x : Item * bytes) : Prop :=
+  (exists s, fst x = Space s) \/ (exists pre t0, doc_item sv on (fst x) t0 /\ t0 = pre ++ snd x /\ ascii_ws pre).
+
+Lemma ascii_ws_app a b : ascii_ws a -> ascii_ws b -> ascii_ws (a ++ b).
+Proof. intros Ha Hb. apply Forall_app. split; assumption. Qed.
+
+Lemma absorb_doc sv on : forall l, Forall (doc_pair sv on) l -> Forall (doc_pair sv on) (absorb l).
+Proof.
+  induction l as [|[it t] r IH]; intros H; inversion H as [|? ? Hx Hr]; subst; [constructor|].
+  specialize (IH Hr). cbn [absorb].
+  destruct it as [l0|s|spec pad|spec|]; try (constructor; assumption).
+  destruct (absorb r) as [|[it2 t2] r'] eqn:Ea; [constructor; [exact Hx|constructor]|].
+  inversion IH as [|? ? Hx2 Hr2]; subst.
+  destruct (split_ws_spec t2) as [Ht2 Hpre]. destruct (split_ws t2) as [wsp body]. cbn [fst snd] in Ht2, Hpre.
+  constructor; [left; eexists; reflexivity|]. constructor; [|exact Hr2].
+  destruct Hx2 as [[s2 E2]|(pre & t0 & Hd & Et & Hp)]; [left; exists s2; exact E2|].
+  right. cbn [fst snd] in *. exists (pre ++ wsp), t0. split; [exact Hd|]. split; [|apply ascii_ws_app; assumption].
+  rewrite Et, Ht2, app_assoc. reflexivity.
+Qed.
+
+(* the first byte of the documented rendering of a fixed item is never white space *)
+Lemma fix_text_nows sv f t pre t' : sv_bounds sv -> tfield_supported f = true -> render_fix sv f = ROk t ->
+  t = pre ++ t' -> ascii_ws pre -> pre = [].
+Proof.
+  intros [Bd Bt Bn Bo] Hsup Hr Et Hp. destruct pre as [|c pre']; [reflexivity|exfalso].
+  pose proof (Forall_inv Hp) as [Hc Hw]. cbn [app] in Et. unfold render_fix in Hr.
+  assert (Hhead : forall x r, t = x :: r -> is_whitespace x = false -> False).
+  { intros x r E Hx. rewrite E in Et. injection Et as -> _. congruence. }
+  destruct f; try discriminate Hsup.
+  - destruct (sv_dn sv) as [dn|] eqn:Ed; [|discriminate Hr]. destruct (Bd dn eq_refl) as (_ & _ & B3 & _). unfold dn_month in B3.
+    destruct (ymd_of_dn dn) as [[yy m] dd] eqn:Eymd. cbn [fst snd] in B3. apply ROk_inj in Hr.
+    assert (Hc12 : m = 1 \/ m = 2 \/ m = 3 \/ m = 4 \/ m = 5 \/ m = 6 \/ m = 7 \/ m = 8 \/ m = 9 \/ m = 10 \/ m = 11 \/ m = 12) by lia.
+    destruct Hc12 as [->|[->|[->|[->|[->|[->|[->|[->|[->|[->|[->| ->]]]]]]]]]]]; vm_compute in Hr; eapply Hhead; try (symmetry; exact Hr); reflexivity.
+  - destruct (sv_dn sv) as [dn|] eqn:Ed; [|discriminate Hr]. destruct (Bd dn eq_refl) as (_ & _ & B3 & _). unfold dn_month in B3.
+    destruct (ymd_of_dn dn) as [[yy m] dd] eqn:Eymd. cbn [fst snd] in B3. apply ROk_inj in Hr.
+    assert (Hc12 : m = 1 \/ m = 2 \/ m = 3 \/ m = 4 \/ m = 5 \/ m = 6 \/ m = 7 \/ m = 8 \/ m = 9 \/ m = 10 \/ m = 11 \/ m = 12) by lia.
+    destruct Hc12 as [->|[->|[->|[->|[->|[->|[->|[->|[->|[->|[->| ->]]]]]]]]]]]; vm_compute in Hr; eapply Hhead; try (symmetry; exact Hr); reflexivity.
+  - destruct (sv_dn sv) as [dn|] eqn:Ed; [|discriminate Hr]. pose proof (weekday_of_dn_bounds dn) as Bw.
+    apply ROk_inj in Hr. set (wd := weekday_of_dn dn) in *.
+    assert (Hc7 : wd = 0 \/ wd = 1 \/ wd = 2 \/ wd = 3 \/ wd = 4 \/ wd = 5 \/ wd = 6) by lia. clearbody wd.
+    destruct Hc7 as [->|[->|[->|[->|[->|[->| ->]]]]]]; vm_compute in Hr; eapply Hhead; try (symmetry; exact Hr); reflexivity.
+  - destruct (sv_dn sv) as [dn|] eqn:Ed; [|discriminate Hr]. pose proof (weekday_of_dn_bounds dn) as Bw.
+    apply ROk_inj in Hr. set (wd := weekday_of_dn dn) in *.
+    assert (Hc7 : wd = 0 \/ wd = 1 \/ wd = 2 \/ wd = 3 \/ wd = 4 \/ wd = 5 \/ wd = 6) by lia. clearbody wd.
+    destruct Hc7 as [->|[->|[->|[->|[->|[->| ->]]]]]]; vm_compute in Hr; eapply Hhead; try (symmetry; exact Hr); reflexivity.
+  - destruct (sv_sod sv) as [s|]; [|discriminate Hr]. apply ROk_inj in Hr.
+    destruct (s <? 43200); vm_compute in Hr; eapply Hhead; try (symmetry; exact Hr); reflexivity.
+  - destruct (sv_sod sv) as [s|]; [|discriminate Hr]. apply ROk_inj in Hr.
+    destruct (s <? 43200); vm_compute in Hr; eapply Hhead; try (symmetry; exact Hr); reflexivity.
+  - destruct (sv_sod sv) as [s|]; [|discriminate Hr]. apply ROk_inj in Hr. rewrite Et in Hr.
+    destruct (sv_nano sv =? 0); [discriminate Hr|].
+    destruct (sv_nano sv mod 1000000 =? 0); [|destruct (sv_nano sv mod 1000 =? 0)]; injection Hr as Hx _; subst c; discriminate Hw.
+  - destruct (sv_sod sv) as [s|]; [|discriminate Hr]. apply ROk_inj in Hr. rewrite Et in Hr.
+    cbn [tfield_supported] in Hsup. destruct dot; cbn [app] in Hr.
+    + injection Hr as Hx _. subst c. discriminate Hw.
+    + rewrite frac_digits_pad in Hr.
+      destruct (pad0_digits digits (sv_nano sv / 10 ^ (9 - digits)) ltac:(lia) (frac_x_bounds (sv_nano sv) digits Bn ltac:(lia))) as (Hd & _).
+      rewrite Hr in Hd. cbn [forallb] in Hd. apply andb_prop in Hd. destruct Hd as [Hd _].
+      pose proof (digit_range c Hd). unfold is_whitespace in Hw. lia.
+  - destruct (sv_off sv) as [o|]; [|discriminate Hr]. apply ROk_inj in Hr. rewrite Et in Hr.
+    rewrite Proofs.C12.offset_text_unfold in Hr. cbv zeta in Hr. cbn [app] in Hr. injection Hr as Hx _.
+    unfold Proofs.C12.off_sign in Hx. destruct (o <? 0); subst c; discriminate Hw.
+  - destruct (sv_off sv) as [o|]; [|discriminate Hr]. apply ROk_inj in Hr. rewrite Et in Hr.
+    rewrite Proofs.C12.offset_text_unfold in Hr. cbv zeta in Hr. cbn [app] in Hr. injection Hr as Hx _.
+    unfold Proofs.C12.off_sign in Hx. destruct (o <? 0); subst c; discriminate Hw.
+Qed.
+
+Lemma doc_pair_safe sv on x : sv_bounds sv -> (forall o, sv_off sv = Some o -> o mod 60 = 0) ->
+  doc_pair sv on x -> safe_pair sv on x.
+Proof.
+  intros Bsv Hmin [[s E]|(pre & t0 & Hd & Et & Hp)] rest w Hread; destruct x as [it t]; cbn [fst snd] in *.
+  - subst it. cbn [reads_b] in Hread. revert Hread. destruct (_ && _); intros Hread; [|discriminate Hread].
+    apply Some_inj in Hread. subst w. exact I.
+  - destruct it as [l|l|spec pad|spec|].
+    + cbn [reads_b] in Hread. revert Hread. destruct (_ && _); intros Hread; [|discriminate Hread].
+      apply Some_inj in Hread. subst w. exact I.
+    + cbn [reads_b] in Hread. revert Hread. destruct (_ && _); intros Hread; [|discriminate Hread].
+      apply Some_inj in Hread. subst w. exact I.
+    + apply (item_value sv on (INumeric spec pad) t0 rest w Bsv Hmin Hd). cbn [reads_b] in *.
+      rewrite Et, reads_numeric_strip by exact Hp. exact Hread.
+    + assert (pre = []).
+      { destruct Hd as [Hd _]. cbn [doc_render] in Hd. destruct (tfield_of spec) as [f|] eqn:Ef; [|discriminate Hd].
+        destruct (render_fix sv f) as [x| |] eqn:Er; try discriminate Hd. apply Some_inj in Hd. subst x.
+        assert (Hsup : tfield_supported f = true).
+        { destruct spec as [ | | | | | | | | | | | | | | | | | | | i]; try discriminate Ef; try (apply Some_inj in Ef; subst f; reflexivity).
+          destruct i; try discriminate Ef; apply Some_inj in Ef; subst f; reflexivity. }
+        exact (fix_text_nows sv f t0 pre t Bsv Hsup Er Et Hp). }
+      subst pre. cbn [app] in Et. subst t0. exact (item_value sv on (IFixed spec) t rest w Bsv Hmin Hd Hread).
+    + destruct Hd as [Hd _]. discriminate Hd.
+Qed.
+
+Lemma doc_pairs_of sv on : forall items texts, Forall2 (doc_item sv on) items texts ->
+  Forall (doc_pair sv on) (combine items texts).
+Proof.
+  induction 1 as [|it t r ts Hd _ IH]; [constructor|]. cbn [combine]. constructor; [|exact IH].
+  right. exists [], t. split; [exact Hd|]. split; [reflexivity|constructor].
+Qed.
+
+(* the reader takes the text back, white space of the format absorbing padding or not *)
+Definition reader_takes (l : list (Item * bytes)) (ws : list write) : Prop :=
+  unambiguous_b l [] = Some ws \/ unambiguous_ws_b l [] = Some ws.
+Lemma reader_takes_parse l ws p : reader_takes l ws -> parse p (text_of l) (map fst l) = run_writes ws p.
+Proof. intros [H|H]; [exact (unambiguous_parse l ws p H)|exact (unambiguous_ws_parse l ws p H)]. Qed.
+Theorem ws_value_any sv on : sv_bounds sv -> (forall o, sv_off sv = Some o -> o mod 60 = 0) -> forall items texts ws,
+  Forall2 (doc_item sv on) items texts -> reader_takes (combine items texts) ws -> Forall (w_ok (gview sv on)) ws.
+Proof.
+  intros Bsv Hmin items texts ws HF [HU|HU]; [exact (ws_value sv on Bsv Hmin items texts [] ws HF HU)|].
+  unfold unambiguous_ws_b in HU. apply (safe_list sv on (absorb (combine items texts)) [] ws); [|exact HU].
+  pose proof (absorb_doc sv on _ (doc_pairs_of sv on items texts HF)) as HD.
+  rewrite Forall_forall in *. intros x Hin. exact (doc_pair_safe sv on x Bsv Hmin (HD x Hin)).
+Qed.
+
 Lemma doc_items_render a sv on items texts : Proofs.C12.args_view a sv ->
   Forall2 (doc_item sv on) items texts -> Forall2 (renders a) items texts.
 Proof.
@@ -680,7 +819,7 @@ Proof. intros V Hn. apply (args_view_bounds a sv V eq_refl). right. exact Hn. Qe
 Theorem general_core a sv on items texts ws :
   Proofs.C12.args_view a sv -> 0 <= sv_nano sv < 1000000000 -> (forall o, sv_off sv = Some o -> o mod 60 = 0) ->
   (forall n, on = Some n -> 0 <= n <= 999999999) ->
-  Forall2 (doc_item sv on) items texts -> unambiguous_b (combine items texts) [] = Some ws ->
+  Forall2 (doc_item sv on) items texts -> reader_takes (combine items texts) ws ->
   Model.Format.write_items a items [] = Model.Format.fok (concat texts) /\
   (forall p0, parse p0 (concat texts) items = run_writes ws p0) /\
   run_writes ws parsed_new = pok (apply_ws ws parsed_new) /\
@@ -690,9 +829,9 @@ Proof.
   pose proof (doc_items_render a sv on items texts V HF) as HR.
   split; [exact (write_items_texts a items texts [] HR)|]. split.
   - intros p0. pose proof (F2_length _ _ _ HR) as Hl.
-    pose proof (unambiguous_parse (combine items texts) ws p0 HU) as H.
+    pose proof (reader_takes_parse (combine items texts) ws p0 HU) as H.
     rewrite text_of_combine, map_fst_combine in H by exact Hl. exact H.
-  - destruct (run_view (gview sv on) ws parsed_new (extends_new _) (ws_value sv on Bsv Hmin items texts [] ws HF HU)) as [Hrun E].
+  - destruct (run_view (gview sv on) ws parsed_new (extends_new _) (ws_value_any sv on Bsv Hmin items texts ws HF HU)) as [Hrun E].
     split; [exact Hrun|]. split; [exact E|]. apply gview_typed; assumption.
 Qed.
 
@@ -700,7 +839,7 @@ Qed.
 Theorem general_date_roundtrip y o d items texts ws :
   Proofs.C08Sweeps.repr y o d ->
   Forall2 (doc_item (sv_of_date (dn_of_yo y o)) None) items texts ->
-  unambiguous_b (combine items texts) [] = Some ws ->
+  reader_takes (combine items texts) ws ->
   date_comb_b y (fst (iso_of_dn (dn_of_yo y o))) (apply_ws ws parsed_new) = true ->
   Model.Format.write_items (Model.Format.fa_of_date d) items [] = Model.Format.fok (concat texts) /\
   (let+ p := parse parsed_new (concat texts) items in pr_of (to_naive_date p)) = pok d.
@@ -767,7 +906,7 @@ Qed.
 Theorem general_time_roundtrip t on items texts ws :
   valid_time t -> (forall n, on = Some n -> 0 <= n <= 999999999) ->
   Forall2 (doc_item (sv_of_time t) on) items texts ->
-  unambiguous_b (combine items texts) [] = Some ws ->
+  reader_takes (combine items texts) ws ->
   time_comb_b (apply_ws ws parsed_new) = true ->
   Model.Format.write_items (Model.Format.fa_of_time t) items [] = Model.Format.fok (concat texts) /\
   (let+ p := parse parsed_new (concat texts) items in pr_of (to_naive_time p)) = pok (time_kept (apply_ws ws parsed_new) t) /\
@@ -791,7 +930,7 @@ Proof. intros Hvt Hs. unfold time_kept. rewrite Hs. cbn [unwrap_or]. apply time_
 Theorem general_ndt_roundtrip y o d t on items texts ws :
   Proofs.C08Sweeps.repr y o d -> valid_time t -> (forall n, on = Some n -> 0 <= n <= 999999999) ->
   Forall2 (doc_item (sv_of_ndt (dn_of_yo y o) t) on) items texts ->
-  unambiguous_b (combine items texts) [] = Some ws ->
+  reader_takes (combine items texts) ws ->
   date_comb_b y (fst (iso_of_dn (dn_of_yo y o))) (apply_ws ws parsed_new) = true -> time_comb_b (apply_ws ws parsed_new) = true ->
   Model.Format.write_items (Model.Format.fa_of_ndt (Model.DateTime.mk_ndt d t)) items [] = Model.Format.fok (concat texts) /\
   (let+ p := parse parsed_new (concat texts) items in pr_of (to_naive_datetime_with_offset p 0)) =
@@ -872,7 +1011,7 @@ Proof.
   assert (EY : year_of_dn (dn_of_yo y o) = y).
   { unfold year_of_dn. rewrite (Proofs.C08Days.yo_of_dn_of_yo y o (proj1 (proj2 H))). reflexivity. }
   rewrite EY in C1.
-  destruct (general_ndt_roundtrip y o d t on items texts ws H Hvt (on_ok_sound on Ho) (doc_texts_sound _ _ _ _ Ed) Eu C1 C2)
+  destruct (general_ndt_roundtrip y o d t on items texts ws H Hvt (on_ok_sound on Ho) (doc_texts_sound _ _ _ _ Ed) (or_introl Eu) C1 C2)
     as (Hw & Hp & _).
   eexists; eexists. split; [exact Hw|exact Hp].
 Qed.
